@@ -81,6 +81,7 @@ var zzTemplates = []string{
 	"for-in", "switch-subject", "switch-case", "if-cond", "loop-cond", "ternary-cond",
 	"make-len", "chan-send-value", "chan-recv", "close", "delete-item", "delete-key", "throw",
 	"assign-source", "multi-assign-source", "var-multi-source", "item-assign-target", "defer-callee", "array-elem", "map-value", "map-key", "return",
+	"delete-global-flag", "switch-subject-nil-case", "switch-nil-subject-case", "eq-nil-l", "eq-nil-r", "make-type", "chan-send-channel", "go-callee", "delete-name",
 }
 
 func zzTemplate(e *env.Env, t string, x ast.Expr) ast.Stmt {
@@ -203,6 +204,30 @@ func zzTemplate(e *env.Env, t string, x ast.Expr) ast.Stmt {
 		return ex(&ast.MapExpr{Keys: []ast.Expr{x}, Values: []ast.Expr{one}})
 	case "return":
 		return &ast.ReturnStmt{Exprs: []ast.Expr{x}}
+	case "delete-global-flag":
+		// delete(name, flag) inside a function: a true flag removes the global binding
+		e.Define("zzg", int64(1))
+		fn := &ast.FuncExpr{Stmt: &ast.DeleteStmt{Item: zzLit("zzg"), Key: x}}
+		return &ast.StmtsStmt{Stmts: []ast.Stmt{ex(&ast.AnonCallExpr{Expr: fn}), ex(&ast.NilCoalescingOpExpr{LHS: zzIdent("zzg"), RHS: zzLit("deleted")})}}
+	case "delete-name":
+		e.Define("abc", int64(1))
+		return &ast.StmtsStmt{Stmts: []ast.Stmt{&ast.DeleteStmt{Item: x}, ex(&ast.NilCoalescingOpExpr{LHS: zzIdent("abc"), RHS: zzLit("deleted")})}}
+	case "switch-subject-nil-case":
+		return &ast.SwitchStmt{Expr: x, Cases: []ast.Stmt{&ast.SwitchCaseStmt{Exprs: []ast.Expr{zzLitRV(nilValue)}, Stmt: ex(zzLit("hit"))}}, Default: ex(zzLit("miss"))}
+	case "switch-nil-subject-case":
+		return &ast.SwitchStmt{Expr: zzLitRV(nilValue), Cases: []ast.Stmt{&ast.SwitchCaseStmt{Exprs: []ast.Expr{x}, Stmt: ex(zzLit("hit"))}}, Default: ex(zzLit("miss"))}
+	case "eq-nil-l":
+		return ex(zzBinOp("==", x, zzLitRV(nilValue)))
+	case "eq-nil-r":
+		return ex(zzBinOp("!=", zzLitRV(nilValue), x))
+	case "make-type":
+		// make(type T, x) names x's dynamic type; a value made of it shows which
+		return &ast.StmtsStmt{Stmts: []ast.Stmt{ex(&ast.MakeTypeExpr{Name: "ZZT", Type: x}),
+			ex(&ast.MakeExpr{TypeData: &ast.TypeStruct{Kind: ast.TypeSlice, SubType: &ast.TypeStruct{Name: "ZZT"}, Dimensions: 1}, LenExpr: one})}}
+	case "chan-send-channel":
+		return ex(&ast.ChanExpr{LHS: x, RHS: one})
+	case "go-callee":
+		return &ast.GoroutineStmt{Expr: &ast.AnonCallExpr{Expr: x, SubExprs: []ast.Expr{one}, Go: true}}
 	}
 	return nil
 }
